@@ -1142,9 +1142,11 @@ tp_shutdown(tp_p tp) {
 		return;
 	LCB_VERIF_POINT("tp_shutdown:after-inc");
 	/* Private virtual thread. */
-	tp->pvt->state = TP_THREAD_STATE_STOP;
-	if (NULL != tp->s.tpt_on_stop) {
-		tp->s.tpt_on_stop(tp->pvt);
+	if (TP_THREAD_STATE_STOP != tp->pvt->state) { /* Only if it was started. */
+		tp->pvt->state = TP_THREAD_STATE_STOP;
+		if (NULL != tp->s.tpt_on_stop) {
+			tp->s.tpt_on_stop(tp->pvt);
+		}
 	}
 	/* Shutdown threads. */
 	for (size_t i = 0; i < tp->s.threads_max; i ++) {
